@@ -1,6 +1,7 @@
 package main
 
 import (
+	"context"
 	"fmt"
 	"strconv"
 	"strings"
@@ -70,8 +71,126 @@ func init() {
 		if strings.HasPrefix(line, "xc03wp ") {
 			return c03xRun(line, out)
 		}
+		if strings.HasPrefix(line, "xc03dl ") {
+			return c03dlRun(line, out)
+		}
 		return r(line, out)
 	}
+	g2 := p.Gen
+	p.Gen = func(rr *hx.R, tier string, out *hx.Out) []string {
+		ls := g2(rr, tier, out)
+		n := 3
+		if tier == "thorough" {
+			n = 12
+		}
+		for i := 0; i < n; i++ {
+			ls = append(ls, fmt.Sprintf("xc03dl how=%s dl=%d calls=%d", []string{"push", "call"}[rr.Intn(2)], rr.Pick(2, 5, 10), 1+rr.Intn(3)))
+		}
+		return ls
+	}
+}
+
+// xc03dl: state left on the CONNECTION by an earlier outgoing message. The serving side first sends a
+// message of its own with a per-message context deadline (sess.Push / sess.AsyncCall with
+// erpc.WithContext(ctxWithTimeout) - the write deadline of that message is put on the socket), the
+// deadline passes, then CALLs arrive: each must be answered exactly once (the connection is fine; a
+// write deadline is per message, not per connection). Seed C03-E skipped SetWriteDeadline for
+// messages without a deadline, so the stale one stayed in force: every later reply write timed out,
+// the fallback 500 too, the CALL was handled and never answered on a connection that stays up.
+//
+//	xc03dl how=push|call dl=<ms> calls=<n>
+func c03dlRun(line string, out *hx.Out) (obs string, nontrivial bool) {
+	defer func() {
+		if p := recover(); p != nil {
+			obs = fmt.Sprint("harness-panic:", p)
+		}
+	}()
+	_, f := hx.Fields(line)
+	dl, _ := strconv.Atoi(f["dl"])
+	n, _ := strconv.Atoi(f["calls"])
+	if dl < 1 || dl > 100 || n < 1 || n > 8 {
+		return "bad-case", false
+	}
+	for i := range c03xInv {
+		atomic.StoreInt32(&c03xInv[i], 0)
+	}
+	srv := erpc.NewPeer(erpc.PeerConfig{})
+	defer func() {
+		closed := make(chan struct{})
+		go func() { srv.Close(); close(closed) }()
+		select {
+		case <-closed:
+		case <-time.After(2 * time.Second):
+		}
+	}()
+	echo := srv.RouteCallFunc(C03xEcho)
+	ca, cb := mem.Pair("")
+	var sess erpc.Session
+	served := make(chan struct{})
+	go func() { defer close(served); sess, _ = srv.ServeConn(cb) }()
+	select {
+	case <-served:
+	case <-time.After(5 * time.Second):
+		return "hang:serve", false
+	}
+	if sess == nil {
+		return "no-session", false
+	}
+	rp := newRawPeer(ca, socket.DefaultProtoFunc())
+	type got struct {
+		m   *M
+		err error
+	}
+	frames := make(chan got, 64)
+	go func() {
+		for {
+			m, err := rp.Recv()
+			frames <- got{m, err}
+			if err != nil {
+				return
+			}
+		}
+	}()
+	// 1. the server's own message with a deadline
+	ctx, cancel := context.WithTimeout(context.Background(), time.Duration(dl)*time.Millisecond)
+	defer cancel()
+	if f["how"] == "push" {
+		sess.Push("/c03dl/note", []byte("n"), erpc.WithContext(ctx))
+	} else {
+		sess.AsyncCall("/c03dl/ask", []byte("q"), new([]byte), make(chan erpc.CallCmd, 1), erpc.WithContext(ctx))
+	}
+	// 2. the deadline passes
+	time.Sleep(time.Duration(dl)*time.Millisecond + 3*time.Millisecond)
+	// 3. CALLs
+	replies := map[int32]int{}
+	eof := false
+	for i := 1; i <= n && !eof; i++ {
+		rp.Send(&M{Seq: int32(i), Mtype: 1, Method: []byte(echo), Codec: 106, Body: []byte("41")})
+		deadline := time.After(2 * time.Second)
+	wait:
+		for replies[int32(i)] == 0 && !eof {
+			select {
+			case g := <-frames:
+				if g.err != nil {
+					eof = true
+				} else if g.m.Mtype == 2 {
+					replies[g.m.Seq]++
+				}
+			case <-deadline:
+				break wait
+			}
+		}
+	}
+	out.Count("xc03dl:" + f["how"])
+	for i := 1; i <= n; i++ {
+		if replies[int32(i)] != 1 && !eof {
+			out.Violate(line, "never-silently-dropped",
+				fmt.Sprintf("CALL %d of %d, received after a server-side %s with a %d ms context deadline had been sent and that deadline had passed: handler ran %d time(s), %d REPLY frames, the connection stays up", i, n, f["how"], dl, atomic.LoadInt32(&c03xInv[i&15]), replies[int32(i)]),
+				"c03:call-dropped:stale-write-deadline")
+		}
+	}
+	ca.Close()
+	return "oracle-only", true
 }
 
 func c03xRun(line string, out *hx.Out) (obs string, nontrivial bool) {
